@@ -185,7 +185,7 @@ func c16Run(env *core.Env, idx int) core.CaseResult {
 			sameURLDifferentContent++
 		}
 		lastVersion = v
-		kind := []string{"ExpandSpec", "ExpandSchemaWithBasePath", "ResolveRefWithBase", "ExpandResponse", "ExpandParameter", "meta-schema", "ExpandSchema(typed-root)", "ExpandSpec(shared-options,no-base)", "ExpandSchema(root-with-id)"}[rng.Intn(9)]
+		kind := []string{"ExpandSpec", "ExpandSchemaWithBasePath", "ResolveRefWithBase", "ExpandResponse", "ExpandParameter", "meta-schema", "ExpandSchema(typed-root)", "ExpandSpec(shared-options,no-base)", "ExpandSchema(root-with-id)", "nil-options"}[rng.Intn(10)]
 		if kind == "ExpandSpec(shared-options,no-base)" && !o.AbsOnly {
 			kind = "ExpandSpec" // without a base location only absolute and fragment-only references are meaningful
 		}
@@ -198,7 +198,9 @@ func c16Run(env *core.Env, idx int) core.CaseResult {
 		if rng.Intn(2) == 0 {
 			spec.PathLoader = ld.load
 		} else {
-			spec.PathLoader = func(string) (json.RawMessage, error) { return nil, fmt.Errorf("package-level loader must not be used by this call") }
+			spec.PathLoader = func(string) (json.RawMessage, error) {
+				return nil, fmt.Errorf("package-level loader must not be used by this call")
+			}
 		}
 		pkgLoaderIsWorld := false
 		wit := map[string]interface{}{"root": w.Root, "documents_of_this_call": w.Docs, "history": append([]string{}, history...), "step": step}
@@ -446,6 +448,53 @@ func c16Run(env *core.Env, idx int) core.CaseResult {
 			if bad {
 				report("result-depends-on-earlier-call", fmt.Sprintf("the cycle cut-points of a schema with an id came out as %q (a first call writes \"#/definitions/node\")", refs))
 			}
+		case "nil-options":
+			// calls without an option structure: the package-level loader serves them, relative references are read from the working
+			// directory. First a call that walks into documents elsewhere, then one with a relative reference: it must ask for the
+			// document next to the working directory, whatever the first one has seen.
+			cwd, _ := os.Getwd()
+			localURL := "file://" + filepath.ToSlash(cwd) + "/c16-local.json"
+			tag := fmt.Sprintf("v%d-%d", v, step)
+			var reqs []string
+			spec.PathLoader = func(u string) (json.RawMessage, error) {
+				reqs = append(reqs, u)
+				if u == localURL || u == filepath.ToSlash(cwd)+"/c16-local.json" {
+					return json.RawMessage(`{"definitions":{"e":{"title":"local e ` + tag + `","type":"object"}}}`), nil
+				}
+				return ld.load(u)
+			}
+			pkgLoaderIsWorld = true
+			var docs []string
+			for u := range w.Docs {
+				if u != w.Root {
+					docs = append(docs, u)
+				}
+			}
+			sort.Strings(docs)
+			if len(docs) > 0 {
+				d := docs[rng.Intn(len(docs))]
+				dm, _ := in.Docs[d].(map[string]interface{})
+				defs, _ := dm["definitions"].(map[string]interface{})
+				for _, name := range keysOf(defs) {
+					a := spec.RefSchema(gen.RefText(w.Root, d, []string{"definitions", name}, "abs"))
+					if err, pan := guard(func() error { return spec.ExpandSchemaWithBasePath(a, nil, nil) }); err != nil || pan != "" {
+						report("call-failed", fmt.Sprintf("nil options, %s: %v %s", a.Ref.String(), err, pan))
+					}
+				}
+			}
+			reqs = nil
+			b := spec.RefSchema("c16-local.json#/definitions/e")
+			err, pan := guard(func() error { return spec.ExpandSchemaWithBasePath(b, nil, nil) })
+			if err != nil || pan != "" {
+				report("result-depends-on-earlier-call", fmt.Sprintf("nil options, \"c16-local.json#/definitions/e\" read from %s: %v %s (requests: %v)", cwd, err, pan, reqs))
+				break
+			}
+			if len(reqs) != 1 || (reqs[0] != localURL && reqs[0] != filepath.ToSlash(cwd)+"/c16-local.json") {
+				report("result-depends-on-earlier-call", fmt.Sprintf("nil options: a reference relative to the working directory %s asked the loader for %v", cwd, reqs))
+			}
+			if b.Title != "local e "+tag {
+				report("result-depends-on-earlier-call", fmt.Sprintf("nil options: resolved to %q, the document of this call holds %q", b.Title, "local e "+tag))
+			}
 		case "meta-schema":
 			// expansions involving the built-in meta-schemas, and their resolution without any loader request
 			var rec []string
@@ -527,7 +576,7 @@ func init() {
 		NumCases: c16NumCases,
 		Run:      c16Run,
 		Floors: func(env *core.Env) []string {
-			return []string{"call.ExpandSpec", "call.ExpandSchemaWithBasePath", "call.ResolveRefWithBase", "call.ExpandResponse", "call.ExpandParameter", "call.meta-schema", "call.ExpandSchema(typed-root)", "call.ExpandSpec(shared-options,no-base)", "call.ExpandSchema(root-with-id)", "calls-with-reused-options",
+			return []string{"call.ExpandSpec", "call.ExpandSchemaWithBasePath", "call.ResolveRefWithBase", "call.ExpandResponse", "call.ExpandParameter", "call.meta-schema", "call.ExpandSchema(typed-root)", "call.ExpandSpec(shared-options,no-base)", "call.ExpandSchema(root-with-id)", "call.nil-options", "calls-with-reused-options",
 				"quiescent-cache-inspections", "consecutive-calls-on-same-urls-with-different-content"}
 		},
 		ChunkSize:   10,
